@@ -45,6 +45,116 @@ let block (s : 'a) (with_q : bool) (with_d : bool) : string =
   Printf.sprintf "r=%s%s c=%s t=%s%s" r (if with_q then " q=" ^ q else "") c t
     (if with_d then (if o_cdir s then " d=1" else " d=0") else "")
 
+(* shared-cache history (kM): the machine of C16/Shared.v with the operation programs extracted from
+   the source; one prediction per snapshot: <cache len:crc | ->/<number of temp files> *)
+let run_multi (toks : string array) : string =
+  let df = unhex toks.(1) in
+  let id = toks.(2) in
+  let cf = unhex toks.(3) in
+  let ci = toks.(4) in
+  let pre = toks.(5) in
+  let nc = int_of_string toks.(7) in
+  let str_of l = String.concat "" (List.map (fun b -> String.make 1 (Char.chr (int_of_z b))) l) in
+  let dfs = str_of df and cfs = str_of cf in
+  let stem = if String.length dfs > 4 && String.lowercase_ascii (String.sub dfs (String.length dfs - 4) 4) = ".pdb"
+    then String.sub dfs 0 (String.length dfs - 4) else dfs in
+  let enc r s = String.concat r (String.split_on_char ' ' s) in
+  let target = Printf.sprintf "%s/%s/%s.sym?code_file=%s&code_id=%s" (enc "%20" dfs) id (enc "%20" stem) (enc "+" cfs)
+      (if ci = "N" then "" else String.lowercase_ascii ci) in
+  let e = mk_env true true (z_of_int (-1)) true true in
+  let server i = { s_id = z_of_int i; s_url = bytes_of_string (Printf.sprintf "http://127.0.0.1:PORT%d/%s" i target); s_env = e } in
+  (* per client: status, no_head, delivered bytes, ending (0 clean, 1 error) *)
+  let scripts = Array.init nc (fun i ->
+    let parts = Array.of_list (String.split_on_char ';' toks.(8 + i)) in
+    let status = int_of_string parts.(0) in
+    let fr = parts.(1) in
+    let cut = parts.(2) in
+    let body = unhex parts.(4) in
+    let blen = List.length body in
+    let (no_head, delivered, ending) =
+      if cut = "-" then (false, body, 0)
+      else if cut = "h" then (true, [], 1)
+      else
+        let k = min blen (int_of_string (String.sub cut 1 (String.length cut - 1))) in
+        if fr.[0] = 'E' && cut.[0] = 'c' then (false, firstn k body, 0)
+        else if fr.[0] = 'L' && cut.[0] = 'c' && k >= blen then (false, body, 0)
+        else (false, firstn k body, 1) in
+    (status, no_head, delivered, ending)) in
+  let sched = if toks.(8 + nc) = "-" then [] else
+    List.map (fun x -> (int_of_string (String.sub x 0 (String.length x - 1)), x.[String.length x - 1]))
+      (String.split_on_char ',' toks.(8 + nc)) in
+  let pre_kind, pre_c =
+    if pre = "-" then (0, []) else if pre = "D" then (2, [])
+    else (1, unhex (String.sub pre 1 (String.length pre - 1))) in
+  let all_servers = List.init nc server in
+  let srv (i : z) : server list = let k = int_of_z i in if k >= 0 && k < nc then [server k] else all_servers in
+  let s = ref (sh_start (sh_init (z_of_int pre_kind) pre_c) srv) in
+  let stage = Array.make nc 0 in
+  let started = Array.make nc false in
+  let requested = Array.make nc false in
+  let code i = let ((c, _), _) = sh_result !s (z_of_int i) in int_of_z c in
+  let pending i = code i = 4 in
+  let start i =
+    if not started.(i) then begin
+      started.(i) <- true;
+      s := sh_begin !s (z_of_int i);
+      if pending i then requested.(i) <- true
+    end in
+  let net i ev = s := sh_net !s (z_of_int i) ev in
+  let advance i want =
+    if started.(i) && pending i && requested.(i) then begin
+      let (status, no_head, delivered, ending) = scripts.(i) in
+      if stage.(i) < 1 && want >= 1 then begin
+        if no_head then (net i ESendErr; stage.(i) <- 3)
+        else (net i (EHead (z_of_int status)); stage.(i) <- (if status >= 400 then 3 else 1))
+      end;
+      let n = List.length delivered in
+      let half = firstn (n / 2) delivered in
+      let rec dropn k l = if k <= 0 then l else match l with [] -> [] | _ :: r -> dropn (k - 1) r in
+      if stage.(i) < 2 && want = 2 then begin
+        if half <> [] then net i (EChunk half);
+        stage.(i) <- 2
+      end;
+      if stage.(i) < 3 && want >= 3 then begin
+        let rest = if stage.(i) = 2 then dropn (n / 2) delivered else delivered in
+        if rest <> [] then net i (EChunk rest);
+        net i (if ending = 0 then EEof else EBodyErr);
+        stage.(i) <- 3
+      end
+    end in
+  let snap () =
+    let c = match sh_cache !s with
+      | Some (File b) -> Printf.sprintf "%d:%d" (List.length b) (crc32 b)
+      | _ -> "-" in
+    Printf.sprintf "%s/%s" c (string_of_z (sh_ntmp !s (z_of_int nc))) in
+  for i = 0 to nc - 1 do
+    if not (List.exists (fun (j, op) -> j = i && op = 'S') sched) then start i
+  done;
+  let snaps = ref [snap ()] in
+  List.iter (fun (i, op) ->
+    (match op with
+     | 'S' -> start i
+     | 'H' -> advance i 1
+     | 'B' -> advance i 2
+     | 'E' -> advance i 3
+     | 'D' -> if started.(i) then net i EDrop
+     | _ -> failwith "schedule op");
+    snaps := !snaps @ [snap ()]) sched;
+  for i = 0 to nc - 1 do advance i 3 done;
+  let res_text st i =
+    let ((c, (nf, np)), url) = sh_result st (z_of_int i) in
+    match int_of_z c with
+    | 0 -> Printf.sprintf "OK:%s:%s:%s" (string_of_z nf) (string_of_z np) (match url with Some u -> hex_of u | None -> "N")
+    | 1 -> "E:NotFound" | 2 -> "E:Parse" | 3 -> "DROPPED" | 5 -> "NOTSTARTED" | _ -> "PENDING" in
+  let res = String.concat " " (List.init nc (fun i -> Printf.sprintf "%s/%d" (res_text !s i) (if requested.(i) then 1 else 0))) in
+  let fin = snap () in
+  (* a further client with every server answering 404 *)
+  let b = z_of_int nc in
+  s := sh_begin !s b;
+  let q = if (let ((c, _), _) = sh_result !s b in int_of_z c) = 4 then nc else 0 in
+  for _ = 1 to nc do s := sh_net !s b (EHead (z_of_int 404)) done;
+  Printf.sprintf "S{%s}R{%s}F{%s}B{%s/%d/%s}" (String.concat " " !snaps) res fin (res_text !s nc) q (snap ())
+
 let () =
   try
     while true do
@@ -56,6 +166,7 @@ let () =
         (* not modelled (the oracle alone judges): locate_file lookups (first token k..), modules
            without debug file/id (code-info redirect), inputs with a line in the band where the
            over-long-line recovery depends on buffer alignment *)
+        if toks.(0) = "kM" then print_endline (run_multi toks) else
         if toks.(0).[0] = 'k' || toks.(0) = "N" || toks.(1) = "N" then print_endline "?" else
         let df = unhex (next ()) in
         let id = next () in
